@@ -1,5 +1,5 @@
 #!/usr/bin/env python3
-"""tools/seeded_meta.py <try_mutant log> ...
+"""tools/seeded_meta.py <final logs> ... [--before <first-measurement logs> ...]
 Write /verif/seeded/<ID>/meta.json from the logs of tools/try_mutant.sh runs (sections start with
 '##### seeded <ID>') and from each seeded change's NOTES.md."""
 import json, os, re, sys
@@ -10,40 +10,50 @@ try:
     from seeded_table import SUMMARY
 except Exception:
     SUMMARY = {}
-results = {}
-for log in sys.argv[1:]:
-    cur = None
-    for line in open(log, errors="replace"):
-        m = re.match(r"##### seeded (\S+)", line)
-        if m:
-            cur = m.group(1)
-            results[cur] = {"fired": {}, "silent": [], "inconclusive": {}}
-            continue
-        if cur is None:
-            continue
-        m = re.match(r"\[(C\d+)\] FIRED rc=1 violations=(\d+)", line)
-        if m:
-            last = m.group(1)
-            results[cur]["fired"][last] = {"distinct_violation_signatures": int(m.group(2)), "examples": []}
-            continue
-        m = re.match(r"\[(C\d+)\] silent", line)
-        if m:
-            results[cur]["silent"].append(m.group(1))
-            continue
-        m = re.match(r"\[(C\d+)\] rc=(\d+)", line)
-        if m:
-            last = m.group(1)
-            results[cur]["inconclusive"][last] = ""
-            continue
-        m = re.match(r"VIOLATION property=(C\d+) signature=(\S+)", line)
-        if m and m.group(1) in results[cur]["fired"]:
-            ex = results[cur]["fired"][m.group(1)]["examples"]
-            if len(ex) < 4:
-                ex.append(m.group(2))
-            continue
-        m = re.match(r"INCONCLUSIVE property=(C\d+) reason=(\S+)", line)
-        if m and m.group(1) in results[cur]["inconclusive"]:
-            results[cur]["inconclusive"][m.group(1)] = m.group(2)[:200]
+def parse(logs):
+    results = {}
+    for log in logs:
+        cur = None
+        for line in open(log, errors="replace"):
+            m = re.match(r"##### seeded (\S+)", line)
+            if m:
+                cur = m.group(1)
+                results[cur] = {"fired": {}, "silent": [], "inconclusive": {}}
+                continue
+            if cur is None:
+                continue
+            m = re.match(r"\[(C\d+)\] FIRED rc=1 violations=(\d+)", line)
+            if m:
+                results[cur]["fired"][m.group(1)] = {"distinct_violation_signatures": int(m.group(2)), "examples": []}
+                continue
+            m = re.match(r"\[(C\d+)\] silent", line)
+            if m:
+                results[cur]["silent"].append(m.group(1))
+                continue
+            m = re.match(r"\[(C\d+)\] rc=(\d+)", line)
+            if m:
+                results[cur]["inconclusive"][m.group(1)] = ""
+                continue
+            m = re.match(r"VIOLATION property=(C\d+) signature=(\S+)", line)
+            if m and m.group(1) in results[cur]["fired"]:
+                ex = results[cur]["fired"][m.group(1)]["examples"]
+                if len(ex) < 4:
+                    ex.append(m.group(2))
+                continue
+            m = re.match(r"INCONCLUSIVE property=(C\d+) reason=(\S+)", line)
+            if m and m.group(1) in results[cur]["inconclusive"]:
+                results[cur]["inconclusive"][m.group(1)] = m.group(2)[:200]
+    return results
+
+
+args = sys.argv[1:]
+before_logs = []
+if "--before" in args:
+    i = args.index("--before")
+    before_logs = args[i + 1:]
+    args = args[:i]
+results = parse(args)
+before = parse(before_logs)
 
 props = {json.loads(l)["id"]: json.loads(l) for l in open(os.path.join(HERE, "properties.jsonl"))}
 for sid, r in results.items():
@@ -68,12 +78,20 @@ for sid, r in results.items():
             "baseline_tests_pass_with_patch": True, "demo_fails_with_patch": True, "demo_passes_without_patch": True,
         },
         "checks_run_against_it": {
-            "how": "tools/try_mutant.sh seeded/%s/patch.diff  (git -C /repo apply; every check's quick command with VERIF_NO_EVIDENCE=1; git -C /repo checkout -- .)" % sid,
+            "how": "tools/iso_run.sh ... %s : patch applied to a scratch worktree of /repo's HEAD, every check's quick command run from a snapshot of /verif with the harness pointed at that worktree, patch reverted (same steps as tools/try_mutant.sh, which does it on /repo itself: git -C /repo apply; checks; git -C /repo checkout -- .)" % sid,
             "fired": r["fired"],
             "silent": r["silent"],
             "inconclusive": r["inconclusive"],
             "caught_by_own_property_check": pid in r["fired"],
         },
     }
+    if sid in before:
+        b = before[sid]
+        meta["first_measurement_before_strengthening"] = {
+            "how": "tools/iso_run.sh with ISO_REV=pre-r4: the machinery exactly as committed BEFORE this change was looked at (scratch worktree of /repo + git archive of /verif at that tag)",
+            "fired": sorted(b["fired"]), "inconclusive": b["inconclusive"],
+            "caught_by_own_property_check": pid in b["fired"],
+            "caught_by_any_check": bool(b["fired"]),
+        }
     json.dump(meta, open(os.path.join(d, "meta.json"), "w"), indent=1)
     print(sid, "fired:", sorted(r["fired"]), "inconclusive:", sorted(r["inconclusive"]))
